@@ -139,7 +139,7 @@ def handle (toks : List String) : String :=
     | none => bad
   | ["cheb.p2l", thr, l] =>
     match parseRat thr, parseRatList l with
-    | some t, some l => showExcept showRatList (poly2laurent t l)
+    | some t, some l => showExcept showRatList (poly2laurentNp t l)
     | _, _ => bad
   | ["cheb.p2lf", l] =>
     match parseRatList l with
